@@ -206,13 +206,17 @@ def havoc_like(v, name):
 
 
 class LoopCtx(object):
-    def __init__(self, ex, entry, cur, i, n, extra=None):
+    def __init__(self, ex, entry, cur, i, n, phase="head", head=None, owner=None, extra=None):
         self.ex = ex
         self.entry = entry  # state at loop head before the first iteration
-        self.cur = cur  # current state
+        self.cur = cur  # state in which the invariant is evaluated
         self.i = i
         self.n = n
+        self.phase = phase  # init | head | step
+        self.head = head  # havocked head state (phase == step)
+        self.owner = owner
         self.extra = extra or {}
+        self.facts = []  # definitional facts the invariant wants assumed in ctx.cur (ghost unfoldings)
 
     def local(self, name):
         return self.cur.locals[name]
@@ -223,10 +227,11 @@ class LoopCtx(object):
 
 class LoopSpec(object):
     """
-    invariant(ctx) -> list of (id, formula | ForallInt)
-    havoc_heap(ctx) -> list of heap keys havocked by the body  (frames come back as invariant clauses)
-    frame_facts(ctx) -> ground facts assumed after havoc (e.g. untouched objects)
-    typed_locals: {name: kind} for locals first assigned inside the body
+    invariant(ctx) -> list of (id, formula | ForallInt)          (ctx.phase: init | head | step)
+    havoc_heap(ctx) -> list of heap keys, or (key, condfn) with condfn(i) -> (x -> formula): the body
+                       may change map `key` only at references x with condfn(i+1)(x); this frame is
+                       built into the havoc (HMap) and re-proved at every step
+    local_types: {name: kind} for locals first assigned inside the body
     """
 
     def __init__(self, invariant, havoc_heap=None, frame_facts=None, elem_cls="Node", on_iter=None, local_types=None, name=""):
@@ -239,7 +244,10 @@ class LoopSpec(object):
         self.name = name
 
     def _check_inv(self, ex, ctx, st, tag, fn, k):
-        for (cid, f) in self.invariant(ctx):
+        clauses = self.invariant(ctx)
+        for f in ctx.facts:
+            st.assume(_zb(f))
+        for (cid, f) in clauses:
             oid = "%s/loop%d/%s:%s" % (fn, k, tag, cid)
             if isinstance(f, ForallInt):
                 o = Oblig(oid, st.pc, f, kind="loopinv")
@@ -249,42 +257,73 @@ class LoopSpec(object):
                 st.oblige(oid, f, kind="loopinv")
 
     def _assume_inv(self, ex, ctx, st):
-        for (cid, f) in self.invariant(ctx):
+        clauses = self.invariant(ctx)
+        for f in ctx.facts:
+            st.assume(_zb(f))
+        for (cid, f) in clauses:
             if isinstance(f, ForallInt):
-                st.ghost.setdefault("schemas", [])
-                st.ghost["schemas"] = st.ghost["schemas"] + [f]
-                # instantiate at the indices in scope
-                for t in self._inst_terms(ctx):
+                st.ghost["schemas"] = st.ghost.get("schemas", []) + [f]
+                for t in [ctx.i, ctx.i - 1]:
                     st.assume(_zb(f.inst(t)))
             else:
                 st.assume(_zb(f))
 
-    def _inst_terms(self, ctx):
-        ts = [ctx.i]
-        ts.extend(ctx.extra.get("inst", []))
-        return ts
-
-    def _havoc(self, ex, node, st, entry, n):
+    def _havoc(self, ex, node, st, entry, n, owner=None):
         h = st.fork()
         i = dsl.fresh_int("i")
         names = assigned_names(node.body)
-        if isinstance(node, ast.For):
-            for nn in assigned_names([ast.Expr(node.target)]) if False else []:
-                pass
         for nm in names:
             if nm in h.locals:
                 h.locals[nm] = havoc_like(h.locals[nm], nm)
             elif nm in self.local_types:
-                from .contracts import make_arg as _mk
+                h.locals[nm] = make_arg(self.local_types[nm], nm)
+        ctx = LoopCtx(ex, entry, h, i, n, "head", owner=owner)
+        framed = []
+        for item in self.havoc_heap(ctx):
+            if isinstance(item, tuple):
+                key, condfn = item
+                base = entry.heap.ensure(key)
+                h.heap.ensure(key)
+                fresh = z3.Const(fresh_name(key + "@loop"), z3.ArraySort(dsl.Ref, base.range()))
+                from .heap import HMap
 
-                h.locals[nm] = _mk(self.local_types[nm], nm)
-        ctx = LoopCtx(ex, entry, h, i, n)
-        for key in self.havoc_heap(ctx):
-            h.heap.havoc(key)
+                h.heap.maps[key] = HMap(base, fresh, condfn(i))
+                framed.append((key, condfn))
+            else:
+                h.heap.havoc(item)
         if self.frame_facts:
             for f in self.frame_facts(ctx):
                 h.assume(_zb(f))
-        return h, i, ctx
+        return h, i, ctx, framed
+
+    def _frame_obligs(self, ex, st, entry, framed, i_next, fn, k):
+        from .heap import map_same
+
+        for (key, condfn) in framed:
+            a = st.heap.ensure(key)
+            b = entry.heap.ensure(key)
+            if map_same(a, b):
+                continue
+            x = z3.Const(fresh_name("xfr"), dsl.Ref)
+            c = condfn(i_next)(x)
+            o = Oblig("%s/loop%d/frame:%s" % (fn, k, key), st.pc, Implies(Not(c), a.select(x) == b.select(x)), kind="loopinv")
+            o.ref_skolem = x
+            o.ref_schemas = list(st.ghost.get("ref_schemas", []))
+            st.obligs.append(o)
+        # maps the body touched although the spec does not list them
+        listed = set(k_ for (k_, _) in framed)
+        for key, a in st.heap.maps.items():
+            if key in listed:
+                continue
+            b = entry.heap.maps.get(key)
+            if b is None:
+                b = entry.heap.ensure(key)
+            hb = getattr(self, "_plain_havoc", set())
+            if key in hb:
+                continue
+            if not map_same(a, b):
+                x = z3.Const(fresh_name("xfr"), dsl.Ref)
+                st.oblige("%s/loop%d/untouched:%s" % (fn, k, key), a.select(x) == b.select(x), kind="loopinv")
 
     def run_for(self, ex, node, st, k):
         fn = ex.cur_func[-1]
@@ -302,18 +341,18 @@ class LoopSpec(object):
             s0.assume(n.r >= 0)
             entry = s0.fork()
             # 1. invariant holds initially
-            ctx0 = LoopCtx(ex, entry, s0, Num.lift(0), n)
+            ctx0 = LoopCtx(ex, entry, s0, Num.lift(0), n, "init", owner=it.owner)
             self._check_inv(ex, ctx0, s0, "init", fn, k)
             # 2. arbitrary iteration
-            h, i, ctx = self._havoc(ex, node, s0, entry, n)
-            h.obligs = list(s0.obligs)
+            h, i, ctx, framed = self._havoc(ex, node, s0, entry, n, owner=it.owner)
+            self._plain_havoc = set(x for x in self.havoc_heap(ctx) if not isinstance(x, tuple))
             h.assume(And(i.r >= 0, i.r <= n.r))
             self._assume_inv(ex, ctx, h)
+            head = h.fork()
             # 2a. exit: i == n
             hx = h.fork()
             if ex.feasible(hx, i.r == n.r):
                 hx.assume(i.r == n.r)
-                # obligations created before the loop stay with the exit path only
                 out.extend(ex.exec_block(node.orelse, hx) if node.orelse else [(hx, NORMAL)])
             # 2b. body: i < n
             hb = h
@@ -322,11 +361,12 @@ class LoopSpec(object):
                 c = hb.heap.list_at(it.owner, it.field, i, self.elem_cls)
                 hb.locals[node.target.id] = c
                 if self.on_iter:
-                    self.on_iter(LoopCtx(ex, entry, hb, i, n), c)
+                    self.on_iter(LoopCtx(ex, entry, hb, i, n, "head", owner=it.owner), c)
                 for (s2, oc) in ex.exec_block(node.body, hb):
                     if oc.kind in ("normal", "continue"):
-                        ctx2 = LoopCtx(ex, entry, s2, i + 1, n)
+                        ctx2 = LoopCtx(ex, entry, s2, i + 1, n, "step", head=head, owner=it.owner)
                         self._check_inv(ex, ctx2, s2, "step", fn, k)
+                        self._frame_obligs(ex, s2, entry, framed, i + 1, fn, k)
                         # path ends here (cut); keep it only for its obligations
                         out.append((s2, Outcome("raise", exc="<cut>")))
                     elif oc.kind == "break":
@@ -341,7 +381,7 @@ class LoopSpec(object):
         entry = st.fork()
         ctx0 = LoopCtx(ex, entry, st, None, None)
         self._check_inv(ex, ctx0, st, "init", fn, k)
-        h, i, ctx = self._havoc(ex, node, st, entry, None)
+        h, i, ctx, framed = self._havoc(ex, node, st, entry, None)
         ctx.i = None
         h.obligs = list(st.obligs)
         self._assume_inv(ex, LoopCtx(ex, entry, h, None, None), h)
